@@ -288,6 +288,7 @@ on...",
         if self.params.restart_from_first_step:
             max_restart_reached = comm.bcast(S.status.restarts_in_a_row >= self.params.max_restarts, root=0)
             S.status.restart = comm.allreduce(S.status.restart, op=self.OR) and not max_restart_reached
+            crash_now = comm.bcast(crash_now, root=0)
 
         if crash_now:
             raise ConvergenceError("Surrendering because of too many restarts...")
